@@ -58,11 +58,15 @@ def _cover(seqs, rng):
 def run(chk):
     # ---- B1 -----------------------------------------------------------------------------
     dump = chk.scratch / "cli-states"
-    r = chk.tlc("CliMC", "CliMC.cfg", extra=("-dump", str(dump)), label="intended design, sequences <= 2")
+    with ThreadPoolExecutor(3) as pool:   # three independent TLC runs
+        f1 = pool.submit(chk.tlc, "CliMC", "CliMC.cfg", extra=("-dump", str(dump)), label="intended design, sequences <= 2")
+        fs = [pool.submit(chk.tlc, "CliMC", f"CliMC_{sw}.cfg", expect_violation="InvGen", label=f"vacuity guard / faithful switch {sw}")
+              for sw in ("DestMustExist", "ExampleNumpy")]
+        r = f1.result()
+        for f in fs:
+            f.result()
     if r.violated or not r.completed:
         raise MachineryError(f"Cli.tla intended design violates {r.violated}: {r.counterexample()[:2000]}")
-    for sw in ("DestMustExist", "ExampleNumpy"):
-        chk.tlc("CliMC", f"CliMC_{sw}.cfg", expect_violation="InvGen", label=f"vacuity guard / faithful switch {sw}")
     states = dc.parse_dump(pathlib.Path(str(dump) + ".dump").read_text())
     if len(states) != r.distinct:
         raise MachineryError(f"dump has {len(states)} states, TLC reports {r.distinct}")
@@ -74,7 +78,7 @@ def run(chk):
     n_cover = len(chosen)
     if chk.thorough():
         rest = [q for q in seqs if q not in chosen]
-        chosen += chk.rng.sample(rest, min(len(rest), 360))
+        chosen += chk.rng.sample(rest, min(len(rest), 200))
     tinies = [cli.tiny_cards(chk.rng) for _ in range(4 if chk.thorough() else 2)]
     refs = [cli.library_answer(t, o, chk.scratch) for t, o in tinies]
     example = cli.example_reference()
